@@ -23,6 +23,9 @@ type Entity struct {
 
 	// guards description
 	muxDescription sync.RWMutex
+
+	// guards address, a remote entity gets a new address value once the device address is known
+	muxAddress sync.RWMutex
 }
 
 var _ api.EntityInterface = (*Entity)(nil)
@@ -47,6 +50,9 @@ func NewEntity(eType model.EntityTypeType, deviceAddress *model.AddressDeviceTyp
 }
 
 func (r *Entity) Address() *model.EntityAddressType {
+	r.muxAddress.RLock()
+	defer r.muxAddress.RUnlock()
+
 	return r.address
 }
 
